@@ -620,6 +620,89 @@ def gen_loop_program(rng):
 # ------------------------------------------------------------------------------------------------ entry points
 
 
+def _conforms(value, typ):
+    t = typ.unwrap_tensor()
+    if value.dtype != t.dtype:
+        return f"dtype {value.dtype} != reported {t.dtype}"
+    if t.shape is None:
+        return ""
+    if value.ndim != len(t.shape):
+        return f"rank {value.ndim} != reported rank {len(t.shape)}"
+    for k, (got, rep) in enumerate(zip(value.shape, t.shape)):
+        if isinstance(rep, int) and got != rep:
+            return f"dim {k}: runtime {got} != reported constant {rep}"
+    return ""
+
+
+def fixed_scenarios(run: Run):
+    """Hand-written programs for corners the random generator does not reach: control flow with MORE THAN TEN results of pairwise
+    different types (positional matching of result types), and a variadic list the caller goes on modifying after the call (the type was
+    inferred from what the list held at the call).  Every requested Var is executed and its value checked against its reported type."""
+    import warnings
+    import onnxruntime as ort
+    import spox.opset.ai.onnx.v17 as op17
+    import spox.opset.ai.onnx.v19 as op19
+    from spox import Tensor, argument, build
+
+    n_checked = 0
+    for op, tag in ((op17, "v17"), (op19, "v19")):
+        scen = {}
+        with warnings.catch_warnings():
+            warnings.simplefilter("ignore")
+            for n in (11, 13):
+                cond = argument(Tensor(np.bool_, ()))
+                xs = [argument(Tensor(np.float32, (k + 1,))) for k in range(n)]
+                outs = op.if_(cond, then_branch=lambda: [op.add(x, x) for x in xs], else_branch=lambda: [op.neg(x) for x in xs])
+                feeds = {"cond": np.array(True), **{f"x{k}": np.ones(k + 1, np.float32) for k in range(n)}}
+                scen[f"if-{n}-results"] = ({"cond": cond, **{f"x{k}": x for k, x in enumerate(xs)}}, {f"r{k}": o for k, o in enumerate(outs)}, feeds)
+                # Loop with n scan outputs of different widths
+                xs = [argument(Tensor(np.float32, (k + 1,))) for k in range(n)]
+                acc = argument(Tensor(np.float32, (2,)))
+                res = op.loop(op.const(np.array(3, np.int64)), v_initial=[acc], body=lambda i, c, a: [c, a] + [op.neg(x) for x in xs])
+                feeds = {"acc": np.ones(2, np.float32), **{f"x{k}": np.ones(k + 1, np.float32) for k in range(n)}}
+                scen[f"loop-{n}-scan-outputs"] = ({"acc": acc, **{f"x{k}": x for k, x in enumerate(xs)}}, {f"r{k}": o for k, o in enumerate(res)}, feeds)
+            x = argument(Tensor(np.float32, (2,)))
+            y = argument(Tensor(np.float32, (3,)))
+            parts = [x, x]
+            first = op.concat(parts, axis=0)
+            parts.append(y)
+            second = op.concat(parts, axis=0)
+            parts.append(x)
+            scen["variadic-list-modified-after-the-call"] = ({"x": x, "y": y}, {"first": first, "second": second},
+                                                             {"x": np.ones(2, np.float32), "y": np.ones(3, np.float32)})
+        for name, (ins, outs, feeds) in scen.items():
+            try:
+                with warnings.catch_warnings():
+                    warnings.simplefilter("ignore")
+                    m = build(ins, outs)
+                so = ort.SessionOptions()
+                so.log_severity_level = 3
+                sess = ort.InferenceSession(_strip_types(m), so)
+                got = dict(zip([o.name for o in sess.get_outputs()], sess.run(None, feeds)))
+            except Exception as e:  # noqa: BLE001
+                run.notes.append(f"fixed scenario {name}/{tag} could not be executed: {type(e).__name__}: {str(e)[:120]}")
+                continue
+            for k, v in outs.items():
+                n_checked += 1
+                d = _conforms(got[k], v.type)
+                if d:
+                    run.fail("impl", f"C06/fixed/{name}", f"{name} ({tag}): result {k} is reported {v.type} but at run time {d}",
+                             {"scenario": name, "module": tag, "result": k, "reported": str(v.type), "runtime_shape": list(got[k].shape)})
+                    break
+    return n_checked
+
+
+def _strip_types(m):
+    """the model with the declared types of its outputs erased (a wrong declaration must not stop onnxruntime from computing)"""
+    import onnx
+    m2 = onnx.ModelProto()
+    m2.CopyFrom(m)
+    for o in m2.graph.output:
+        o.type.tensor_type.ClearField("shape")
+    del m2.graph.value_info[:]
+    return m2.SerializeToString()
+
+
 def run(run: Run) -> int:
     run.check_theorems(PROPS, CONE, thorough_coqchk=(run.tier == "thorough"))
     quick = run.tier == "quick"
@@ -645,6 +728,8 @@ def run(run: Run) -> int:
         progs.append(P.grow_program(rng, p, opmods))
     pstats, n_loop2, n_loop_mism2 = run_programs(run, pool, progs, cov, "random")
     cov["phase_wall_s"]["random_programs"] = round(time.time() - t, 1)
+    n_fixed = fixed_scenarios(run)
+    cov["fixed_scenarios_values_checked"] = n_fixed
     distinct = len({json.dumps(p["steps"], sort_keys=True) for p in progs if len(p["steps"]) >= 3})
     cov.update({
         "evaluations": n_calls + n_inl + n_loop + n_loop2 + n_rt,
